@@ -176,6 +176,16 @@ func zzC13_kmac(kl, cl, ol, l0, l1, l2 int) {
 	assertEq(s1, refKMAC128(key, cust, m1, ol), "Reset; Write; SumHash")
 	_, _ = h.Write(m2)
 	assertEq(h.SumHash(), want, "writing after SumHash continues the same stream")
+	// further Reset cycles start from the keyed initial state, whatever was written in earlier cycles,
+	// and ComputeHash stays independent of the stream
+	h.Reset()
+	_, _ = h.Write(m2)
+	assertEq(h.ComputeHash(m1), refKMAC128(key, cust, m1, ol), "ComputeHash after Reset and Write is the MAC of its argument only")
+	assertEq(h.SumHash(), refKMAC128(key, cust, m2, ol), "second Reset cycle: SumHash sees exactly what was written after the Reset")
+	h.Reset()
+	assertEq(h.SumHash(), refKMAC128(key, cust, []byte{}, ol), "Reset; SumHash is the MAC of the empty message")
+	_, _ = h.Write(msg)
+	assertEq(h.SumHash(), want, "third cycle")
 	verifReach("kmac")
 }
 
